@@ -1,15 +1,17 @@
 #!/usr/bin/env python3
-"""fuzz_merge.py <campaign json line>... : merges libFuzzer campaign statistics into evidence/C04.json, converts crash
-artifacts into replay files, prints VIOLATION lines. Exit 1 if there is any artifact."""
+"""fuzz_merge.py <property id> <campaign json line>... : merges libFuzzer campaign statistics into evidence/<id>.json,
+converts crash artifacts into replay files, prints VIOLATION lines for those that the plain replay reproduces.
+Exit 1 if there is any, 2 for timeout/oom artifacts only."""
 import json, os, sys, glob, hashlib
 root = os.path.dirname(os.path.dirname(os.path.abspath(__file__)))
-campaigns = [json.loads(a) for a in sys.argv[1:] if a.strip().startswith("{")]
-ev_path = os.path.join(root, "evidence", "C04.json")
+PROP = sys.argv[1]
+campaigns = [json.loads(a) for a in sys.argv[2:] if a.strip().startswith("{")]
+ev_path = os.path.join(root, "evidence", f"{PROP}.json")
 ev = json.load(open(ev_path))
 cov = ev["coverage"]
 cov["fuzzing"] = campaigns
 cov["evaluations"] += sum(c.get("executions", 0) for c in campaigns)
-cov["rule"] += " || [libFuzzer] coverage-guided campaigns: `parse_total` (bytes up to 0xFF = expression text, rest = evaluation choices; dictionary of grammar tokens; seeds = 120 sample lines of the repository) and `consistency` (bytes = choice sequence for the sentence generator, first byte selects one of the C01/C02/C05/C06/C07/C13/C16/C17 oracles, which run inside the target); fresh working corpus, -seed derived from VERIF_SEED, fixed -runs per worker"
+cov["rule"] += " || [libFuzzer] coverage-guided campaign: " + ("`parse_total` (bytes up to 0xFF = expression text, rest = evaluation choices; dictionary of grammar tokens; seeds = 120 sample lines of the repository; the totality predicate runs inside the target)" if PROP == "C04" else f"`consistency` with the oracle pinned to this property (bytes = choice sequence decoded by the same generators the proptest driver uses; the {PROP} oracle runs inside the target)") + "; fresh working corpus, -seed derived from VERIF_SEED, fixed -runs per worker and a wall-clock budget that only ends the exploration"
 TABLE = [("C01", "semantics"), ("C02", "windows"), ("C06", "roundtrip"), ("C07", "meaning"), ("C13", "idempotent"), ("C05", "positive"), ("C17", "wellformed"), ("C16", "bound_relation")]
 violations = []
 inconclusive = []
@@ -25,7 +27,8 @@ for c in campaigns:
             body = {"property": "C04", "check": "hostile", "text": text, "rendered": text, "message": f"libFuzzer artifact {os.path.basename(art)}: {c.get('first_message', '')}"}
             prop = "C04"
         else:
-            prop, check = TABLE[data[0] % len(TABLE)] if data else ("C04", "hostile")
+            pinned = [t for t in TABLE if t[0] == PROP]
+            prop, check = pinned[0] if pinned else (TABLE[data[0] % len(TABLE)] if data else ("C04", "hostile"))
             raw = data[1:]
             choices = [raw[i] | ((raw[i + 1] if i + 1 < len(raw) else 0) << 8) for i in range(0, len(raw), 2)]
             body = {"property": prop, "check": check, "choices": choices, "text": None, "rendered": f"libFuzzer artifact {os.path.basename(art)}", "message": c.get("first_message", "")}
@@ -53,7 +56,7 @@ cov["fuzzing_inconclusive"] = inconclusive
 ev["violations"] = ev.get("violations", 0) + len(violations)
 json.dump(ev, open(ev_path, "w"), indent=1)
 for prop, path, msg in violations:
-    print(f"VIOLATION property=C04 replay={path}")
+    print(f"VIOLATION property={PROP} replay={path}")
     print(f"  detail: found by coverage-guided fuzzing (oracle of {prop}) :: {msg[:400]}")
 for line in inconclusive:
     print(f"INCONCLUSIVE: {line}")
